@@ -133,6 +133,8 @@ struct Card {
     // fault options (not part of a legal card)
     wres: Option<u8>,
     st13: Option<(u8, u8)>,
+    stuck41: bool,      // ACMD41 never reports ready
+    r58: Option<u8>,    // R1 of CMD58
     // bookkeeping for the oracle lines
     dirty: Vec<u64>,
 }
@@ -250,6 +252,10 @@ impl Card {
                 let r = vec![self.r1(0)];
                 self.respond(k, r, Phase::Idle)
             }
+            58 if self.r58.is_some() => {
+                let r = vec![self.r58.unwrap()];
+                self.respond(k, r, Phase::Idle)
+            }
             58 => {
                 let ocr0 = if self.idle {
                     0
@@ -276,7 +282,7 @@ impl Card {
             41 if was_app => {
                 if self.idle {
                     let hcs_ok = self.kind != Kind::V2HC || (arg >> 30) & 1 == 1;
-                    if hcs_ok {
+                    if hcs_ok && !self.stuck41 {
                         if self.init_left == 0 {
                             self.idle = false;
                             self.respond(k, vec![0], Phase::Idle)
@@ -663,6 +669,16 @@ fn run_scenario(out: &mut impl Write, id: &str, crc: &str, retries: &str, be: Ba
                         c.wres = Some(u8::from_str_radix(p[1], 16).unwrap())
                     }
                 }
+                "stuck41" => {
+                    if let Backend::Sim(c) = &mut be {
+                        c.stuck41 = true
+                    }
+                }
+                "r58" => {
+                    if let Backend::Sim(c) = &mut be {
+                        c.r58 = Some(u8::from_str_radix(p[1], 16).unwrap())
+                    }
+                }
                 "st13" => {
                     if let Backend::Sim(c) = &mut be {
                         c.st13 = Some((u8::from_str_radix(p[1], 16).unwrap(), u8::from_str_radix(p[2], 16).unwrap()))
@@ -813,6 +829,8 @@ fn main() {
                     phase: Phase::Idle,
                     wres: None,
                     st13: None,
+                    stuck41: false,
+                    r58: None,
                     dirty: vec![],
                 };
                 run_scenario(&mut out, id, crc, retries, Backend::Sim(Box::new(card)), faults, fails, calls);
